@@ -241,6 +241,31 @@ def instances(tier, want=None):
     return out
 
 
+_DIM_OK = {}
+
+
+def supports_dim(name, sk, n):
+    """does the recipe build and evaluate on the n-dimensional variant of its space?  (some recipes carry literal
+    2-entry data)"""
+    key = (name, sk, n)
+    if key not in _DIM_OK:
+        from symnp.ctx import Ctx
+        import warnings
+        try:
+            with warnings.catch_warnings():
+                warnings.simplefilter('ignore')
+                c = Ctx('conc')
+                r, f = build(c, name, sk, n=n)
+                x = c.element(f.domain, 'x')
+                if r.pre is not None:
+                    r.pre(c, x)
+                f(x)
+            _DIM_OK[key] = True
+        except Exception:
+            _DIM_OK[key] = False
+    return _DIM_OK[key]
+
+
 def build(ctx, name, sk, n=None):
     r = fby_name(name)
     sp = None if sk == 'field' else space(sk, n if n is not None else r.n)
